@@ -13,8 +13,8 @@ def describe(db, fn):
     """(hasher names constructed, constant digest sub-ranges kept, update-arg trees)"""
     import common
     hashers, ranges = [], []
-    # the function and the closures written inside it are one source-level body
-    for body in common.bodies(db, fn):
+    # the function, the closures written inside it and the same-crate helpers it calls are one source-level body
+    for body in common.bodies(db, fn, helpers=2):
         _describe_body(db, body, hashers, ranges)
     return hashers, ranges
 
